@@ -95,6 +95,8 @@ class Tr:
                 return f'(sqrt {self(node.args[0])})'
             if f == 'np.fmax' and len(node.args) == 2:
                 return f'(max {self(node.args[0])} {self(node.args[1])})'
+            if f == 'np.maximum' and len(node.args) == 2:
+                return f'(max {self(node.args[0])} {self(node.args[1])})'
             if f == 'np.fmin' and len(node.args) == 2:
                 return f'(min {self(node.args[0])} {self(node.args[1])})'
             if f == 'np.clip' and len(node.args) == 3:
@@ -1503,7 +1505,7 @@ def _s_window():
     comp = the_assign(sf, 'stats_futures')
     gens = [(U(g.target), U(g.iter), [U(i) for i in g.ifs]) for g in comp.generators] if isinstance(comp, ast.ListComp) else None
     if gens != [('band_i', 'range(self._param_im.count)', []),
-                ('(block_ij, block_win)', 'self._param_im.block_windows(band_i + 1)', ['intersect(data_win, block_win)'])] or \
+                ('(block_ij, block_win)', 'self._param_im.block_windows(band_i + 1)', ['data_win is None or intersect(data_win, block_win)'])] or \
             U(comp.elt) != 'executor.submit(get_block_sums, band_i, block_win)':
         raise TranslationError(f'stats: tiles read {gens}')
     return [('statsWindow_steps', '', 'List WindowStep',
